@@ -95,6 +95,18 @@ def exec_case(case):
             except Exception as ex:
                 e2["exc"] = type(ex).__name__ + ":" + str(ex)[:80]
             events.append(e2)
+            if len(m.vertices) >= 2 and not e2["exc"]:
+                # history: wrap the built mesh again, add one vertex and one face behind the existing records, build again
+                e3 = {"op": "extend", "exc": "", "obs": {}, "newF": [0, 1, len(m.vertices)]}
+                try:
+                    data = M.mesh.RawMeshData(m)
+                    data.vertices.append(Vec(9., 9., 9.))
+                    data.faces.append(list(e3["newF"]))
+                    m3 = M.mesh.mesh._instanciate_raw_mesh_data(data)
+                    e3["obs"] = observe(m3)
+                except Exception as ex:
+                    e3["exc"] = type(ex).__name__ + ":" + str(ex)[:80]
+                events.append(e3)
             if type(m).__name__ == "SurfaceMesh" and raw["completeE"]:
                 rng = random.Random(len(case["id"]))
                 kinds = rng.sample(c01.ALL_Q, 12)
